@@ -677,7 +677,7 @@ func TestC17Env(t *testing.T) {
 	)
 	inel := []string{"g/.hidden", "g/x.lck"}
 	setup := func(r *rig) {
-		r.fileOps = []string{"rewrite", "append", "touch"}
+		r.fileOps = []string{"rewrite", "append", "touch", "restore"}
 		delete(r.expect, "g/.hidden")
 		delete(r.expect, "g/x.lck")
 	}
@@ -696,13 +696,16 @@ func TestC17Env(t *testing.T) {
 				out = append(out, pick(ev.Menu, "refuse", "corrupt:")...)
 			}
 			for _, m := range pick(ev.Menu, "file:") {
+				if strings.Contains(m, ":restore:") && !strings.HasSuffix(m, ":g/a") {
+					continue // an older copy put in place: one file is enough
+				}
 				if strings.HasSuffix(m, ":g/a") || strings.HasSuffix(m, ":g/b") || (strings.HasSuffix(m, ":g/young") && strings.Contains(m, "append")) {
 					out = append(out, m)
 				}
 			}
 			return out
 		}, c17Check(inel),
-		fmt.Sprintf("all plans with <= %d deviations: file changes (rewritten with the same size, appended to, touched; created anew under its name when it was already delivered and deleted) applied to an eligible file at any externally visible action of the sender (scan, cache write, data / poll request, sent-log write, done-marking), and request failures (data request refused, a part corrupted in transit); daemon with scan delay 30 s, min-age 60 s, hidden file, lock file and a file that becomes old enough during the run present; oracle: ineligible files are never transmitted, polled, released or removed; what is delivered is one complete version; an unchanged version is transmitted once; 30 min after the last change the latest version of every eligible file is delivered and released", d))
+		fmt.Sprintf("all plans with <= %d deviations: file changes (rewritten with the same size, appended to, touched, replaced by a same-size copy with an OLDER modification time; created anew under its name when it was already delivered and deleted) applied to an eligible file at any externally visible action of the sender (scan, cache write, data / poll request, sent-log write, done-marking), and request failures (data request refused, a part corrupted in transit); daemon with scan delay 30 s, min-age 60 s, hidden file, lock file and a file that becomes old enough during the run present; oracle: ineligible files are never transmitted, polled, released or removed; what is delivered is one complete version; an unchanged version is transmitted once; 30 min after the last change the latest version of every eligible file is delivered and released", d))
 }
 
 // TestC17Elig: which files are queued, for every combination of the eligibility options, on a
